@@ -74,9 +74,10 @@ type Case struct {
 	Expr    ast.Expr      // resolved expression (for a call result #0: the call itself)
 	Call    *ast.CallExpr // set when the value is a result of this (opaque) call
 	Result  int
-	Zero    bool   // declared without a value
-	Unknown string // not resolvable (loop-carried, modified in place, address taken ...)
-	Sites   []Site // use site and the definition sites the value passed through
+	Zero    bool     // declared without a value
+	Unknown string   // not resolvable (loop-carried, modified in place, address taken ...)
+	Sites   []Site   // use site and the definition sites the value passed through
+	Use     ast.Expr // the expression asked about at the use site (last element of Sites)
 }
 
 // SiteOf returns the site of node n in function fn (root frame).
@@ -233,8 +234,33 @@ func (e *Engine) Values(s Site, x ast.Expr) []Case {
 	cs := e.values(s, x, 0)
 	for i := range cs {
 		cs[i].Sites = append(cs[i].Sites, s)
+		cs[i].Use = x
 	}
 	return cs
+}
+
+// NilInfeasible reports whether a nil origin of c is excluded at its use site:
+// the use is an identifier and every path to the use establishes `ident != nil`
+// (the usual `if err != nil { return err }`).
+func (e *Engine) NilInfeasible(c Case) bool {
+	id, ok := ast.Unparen(c.Use).(*ast.Ident)
+	if !ok || len(c.Sites) == 0 {
+		return false
+	}
+	s := c.Sites[len(c.Sites)-1]
+	obj := objOf(s.G.Info, id)
+	return e.underLocal(s.G, s.At, s.Up, func(f cfgq.Fact) bool {
+		be, ok := ast.Unparen(Positive(f)).(*ast.BinaryExpr)
+		if !ok || be.Op != token.NEQ {
+			return false
+		}
+		for _, p := range [][2]ast.Expr{{be.X, be.Y}, {be.Y, be.X}} {
+			if x, ok := ast.Unparen(p[0]).(*ast.Ident); ok && objOf(s.G.Info, x) == obj && core.IsNil(s.G.Info, p[1]) {
+				return true
+			}
+		}
+		return false
+	})
 }
 
 func (e *Engine) isLocal(obj types.Object) *types.Var {
